@@ -209,18 +209,26 @@ Theorem C13_get_subdomain_self_interface_refuted :
 Proof. exact get_subdomain_self_interface_refuted. Qed.
 Print Assumptions C13_get_subdomain_self_interface_refuted.
 
-Theorem C13_map_joined_orientation_refuted :
-  exists J D L, joined_m1 = Ok J /\ map_domain "M" J = Ok D /\ d_logical D = Some L /\
-    map i_ornt (d_conn L) = [O2 (-1)] /\ map i_ornt (d_conn D) = [ONone].
-Proof. exact map_joined_orientation_refuted. Qed.
-Print Assumptions C13_map_joined_orientation_refuted.
+(* a mapping applied to a joined domain: every interface of the result is the image of an interface of the
+   argument with the same name and the same orientation (full strength since /repo's
+   "fix: MappedDomain keeps the orientation"; before, the orientation was dropped in 2-D and the call raised in 3-D) *)
+Theorem C13_map_joined_keeps_orientation : forall m d D,
+  map_domain m d = Ok D -> forall i, In i (d_conn D) ->
+  exists e, In e (interfaces d) /\ i_name i = i_name e /\ i_ornt i = i_ornt e /\
+            i_minus i = map_face m (i_minus e) /\ i_plus i = map_face m (i_plus e).
+Proof. exact map_domain_keeps_orientation. Qed.
+Print Assumptions C13_map_joined_keeps_orientation.
 
-Theorem C13_map_joined_3d_refuted :
-  exists J, join [ncube_domain cbA; ncube_domain cbB]
+Example C13_map_joined_orientation_2d :
+  exists J D L, joined_m1 = Ok J /\ map_domain "M" J = Ok D /\ d_logical D = Some L /\
+    map i_ornt (d_conn L) = [O2 (-1)] /\ map i_ornt (d_conn D) = [O2 (-1)].
+Proof. exact map_joined_orientation_kept. Qed.
+
+Example C13_map_joined_3d :
+  exists J D, join [ncube_domain cbA; ncube_domain cbB]
                  [ mkConn (mkSide (PIdx 0) 0 1) (mkSide (PIdx 1) 0 (-1)) None ] "J" = Ok J
-            /\ map_domain "M" J = Err EType.
-Proof. exact map_joined_3d_refuted. Qed.
-Print Assumptions C13_map_joined_3d_refuted.
+            /\ map_domain "M" J = Ok D /\ map i_ornt (d_conn D) = map i_ornt (d_conn J) /\ length (d_conn D) = 1.
+Proof. exact map_joined_3d_ok. Qed.
 
 Theorem C13_twin_shared_logical_refuted :
   exists D L,
